@@ -41,6 +41,23 @@ def generate(repo, outdir):
             body = "(if %s then false else %s)" % (p, body)
         return "Definition validate_message (message : jv) : bool :=\n  %s.\n" % body
     target(out, "web.validate_message", tr)
+
+    def queue_lint():
+        """RELAY.Model lets a query put answers on the connection's queue without ever waiting (the queue is a list that
+        grows): true of `asyncio.Queue()` without a size, and only of that"""
+        fn = find_func(tree, "start_client")
+        made = [n for n in ast.walk(fn) if isinstance(n, ast.Assign) and any(isinstance(x, ast.Name) and x.id == "subscription_queue" for x in n.targets)]
+        problems = []
+        if len(made) != 1 or ast.unparse(made[0]) != "subscription_queue = asyncio.Queue()":
+            problems.append("start_client does not create its answer queue as `subscription_queue = asyncio.Queue()` exactly once: %s"
+                            % "; ".join(ast.unparse(m) for m in made))
+        for n in ast.walk(fn):
+            if isinstance(n, ast.Attribute) and isinstance(n.value, ast.Name) and n.value.id == "subscription_queue" and n.attr not in ("get", "put", "qsize", "empty"):
+                problems.append("subscription_queue.%s used" % n.attr)
+        for p_ in problems:
+            print("WEB-LINT answer_queue_unbounded: %s" % p_)
+        return "Definition answer_queue_unbounded : bool := %s.\n" % ("false" if problems else "true")
+    target(out, "web.answer_queue", queue_lint)
     emit(os.path.join(outdir, "Web.v"), "\n".join(out))
 
 
